@@ -1,6 +1,7 @@
 import Driver.Util
 import Std.Data.HashMap
 import TemporalModel.Model.Tzif
+import TemporalModel.Model.Format
 namespace Driver
 open TemporalModel
 
@@ -71,6 +72,32 @@ def handleTzdb (tbl : ZoneTable) (lowerNames : Std.HashMap String Unit) (toks : 
     -- exactly the IANA names, case-insensitively
     some (if lowerNames.contains (lower s) then "ok 1" else "ok 0")
   | ["tzdb_ord", _, _, _] => some "ok 1"
+  | ["tzdb_zstr", name, ns] => do
+    -- ZonedDateTime in a named zone through the provider: default string and wall-clock fields, from the offset the
+    -- zone's table gives for the instant's second
+    let ns ← int? ns
+    match tbl[name]? with
+    | none => some "?unknown-zone"
+    | some z =>
+      some ((do
+        let ns ← instantTryNew ns
+        let off := z.offsetAt (ns / 1000000000) * 1000000000
+        let dt ← IsoDateTime.fromEpochNanos ns off
+        let s := Fmt.date dt.date ++ ['T'] ++ Fmt.time dt.time .auto ++ Fmt.offsetMinutes (Fmt.offsetNsToMinutes off) ++
+          ['['] ++ name.toList ++ [']']
+        pure s!"{String.ofList s} | {dt.date.year} {dt.date.month} {dt.date.day} {dt.time.hour} {dt.time.minute} {dt.time.second} {off}"
+        : Out String).render id)
+  | ["tzdb_istr", name, ns] => do
+    let ns ← int? ns
+    match tbl[name]? with
+    | none => some "?unknown-zone"
+    | some z =>
+      some ((do
+        let ns ← instantTryNew ns
+        let off := z.offsetAt (ns / 1000000000) * 1000000000
+        let dt ← IsoDateTime.fromEpochNanos ns off
+        pure (String.ofList (Fmt.date dt.date ++ ['T'] ++ Fmt.time dt.time .auto ++ Fmt.offsetMinutes (Fmt.offsetNsToMinutes off)))
+        : Out String).render id)
   | ["tzdb_offns", name, t, sub] => do
     -- an instant with a sub-second part lies in the second that starts at or before it
     let t ← int? t
